@@ -171,22 +171,24 @@ static uintptr_t bufferRef(MPT_INTERFACE(metatype) *mt)
 	(void) mt;
 	return 0;
 }
-static MPT_INTERFACE(metatype) *bufferCopy(MPT_INTERFACE(metatype) *(*copy)(const MPT_STRUCT(array) *), const MPT_STRUCT(slice) *sl)
+static MPT_INTERFACE(metatype) *bufferCopy(MPT_INTERFACE(metatype) *(*copy)(const MPT_STRUCT(array) *), const MPT_STRUCT(metaBuffer) *from)
 {
 	MPT_STRUCT(metaBuffer) *ptr;
 	MPT_INTERFACE(metatype) *res;
-	if (!(res = copy(&sl->_a))) {
+	if (!(res = copy(&from->s._a))) {
 		return 0;
 	}
 	ptr = (void *) res;
-	ptr->s._len = sl->_len;
-	ptr->s._off = sl->_off;
+	ptr->s._len = from->s._len;
+	ptr->s._off = from->s._off;
+	/* string state of current segment in shared buffer */
+	ptr->str = from->str;
 	return res;
 }
 static MPT_INTERFACE(metatype) *bufferClone(const MPT_INTERFACE(metatype) *mt)
 {
 	const MPT_STRUCT(metaBuffer) *m = (void *) mt;
-	return bufferCopy(mpt_meta_buffer, &m->s);
+	return bufferCopy(mpt_meta_buffer, m);
 }
 
 /*!
@@ -290,7 +292,7 @@ static int bufferConvArgs(MPT_INTERFACE(convertable) *val, MPT_TYPE(type) type, 
 static MPT_INTERFACE(metatype) *bufferCloneArgs(const MPT_INTERFACE(metatype) *mt)
 {
 	const MPT_STRUCT(metaBuffer) *m = (void *) mt;
-	return bufferCopy(mpt_meta_arguments, &m->s);
+	return bufferCopy(mpt_meta_arguments, m);
 }
 /*!
  * \ingroup mptArray
